@@ -604,7 +604,13 @@ class StmtMixin:
         else:
             ok = False
         if ok and s.finalbody:
-            ok = self.exec_block(s.finalbody, fr, st)
+            # effects of a finally block also happen when the guarded block raises: they carry the place of the `try`
+            stack = self.__dict__.setdefault("_finally_stack", [])
+            stack.append(site)
+            try:
+                ok = self.exec_block(s.finalbody, fr, st)
+            finally:
+                stack.pop()
         return ok
 
     def ex_While(self, s, fr, st):
